@@ -25,7 +25,14 @@ STYLE = {'f': 'SFuture', 'c': 'SCallback', 'x': 'SFfi'}
 
 # ------------------------------------------------------------------------------- rendering
 def step_token(s):
+    if s[0] == '~':
+        return '~' + step_token(s[1:])
     return ':'.join(str(x) for x in s)
+
+
+def plain(script):
+    """the script without the no-settle markers"""
+    return [s[1:] if s[0] == '~' else s for s in script]
 
 
 def to_line(case):
@@ -69,6 +76,7 @@ def _bad(s):
 
 def to_coq(case):
     cfg, script = case
+    script = plain(script)
     mt = f'Some {cfg["mt"]}' if cfg['mt'] else 'None'
     return (f'{{| k_cap := {cfg["cap"]}; k_handles := {cfg["handles"]}; k_max_timeouts := {mt}; k_rmin := {cfg["rmin"]}; '
             f'k_rmax := {cfg["rmax"]}; k_res := {RES}; k_script := [{"; ".join(step_coq(s) for s in script)}] |}}')
@@ -141,6 +149,7 @@ def edge(a, b):
 def spec_failures(case, line):
     """the property statements read on ONE log (implementation or model); returns a list of failed clause names"""
     cfg, script = case
+    script = plain(script)
     p = parse(line)
     if p is None:
         return ['panic-or-garbled-output']
@@ -233,6 +242,33 @@ def spec_failures(case, line):
                 bad.append('C12.timeout-not-at-the-deadline')
         if cl == 'NoConnection' and i in wire_of:
             bad.append('C13.no-connection-for-a-transmitted-request')
+    # C13: fail fast. Connected intervals [lN@t, e..@t] are read off the log; a request submitted strictly outside all of
+    # them (boundaries excluded: same-instant order is not an observable) completes at once with NoConnection (Shutdown if the task is gone)
+    intervals = []
+    for t in p['task']:
+        if t.startswith('lN@'):
+            intervals.append([int(t[3:]), None])
+        elif t[0] == 'e' and '@' in t and intervals and intervals[-1][1] is None:
+            intervals[-1][1] = int(t.split('@')[1])
+    comp_of = {c[0]: c for c in p['comp']}
+    now = 0
+    live = cfg['handles']
+    aborted = False
+    for st in script:
+        if st[0] == 'T':
+            now += st[1]
+        elif st[0] == 'H':
+            live = max(0, live - 1)
+        elif st[0] == 'S' and live > 0 and len(set(submitted)) == len(submitted):
+            if not any(a <= now and (b is None or now <= b) for a, b in intervals):
+                c = comp_of.get(st[1])
+                if c is None or c[2] != now or c[1] not in ('NoConnection', 'Shutdown'):
+                    bad.append('C13.request-not-failed-at-once-while-not-connected')
+    # C10: Shutdown is only reported when the task is gone, or when the submitting try_send itself was rejected
+    if not p['done']:
+        for i, c, t in p['comp']:
+            if c == 'Shutdown' and kinds.get(i, (0, 0, 0, 0, 'x'))[4] != 'x':
+                bad.append('C10.shutdown-reported-while-the-task-is-alive')
     # C12: consecutive-timeout limit, per connection
     for outs, end in session_outcomes(case, line):
         run = 0
@@ -255,6 +291,7 @@ def session_outcomes(case, line):
     """per connection of one log: ([outcome letters in the order the requests were taken], end reason or None);
     t timeout, s success, e exception, b bad reply, o a request rejected locally (cannot be formatted), None = not finished"""
     cfg, script = case
+    script = plain(script)
     p = parse(line)
     if p is None:
         return []
@@ -264,7 +301,7 @@ def session_outcomes(case, line):
     cur = None
     sess_of = {}
     for t in p['task']:
-        if t == 'lN':
+        if t.startswith('lN'):
             cur = {'ids': [], 'end': None}
             sessions.append(cur)
         elif t[0] == 'w' and cur is not None:
@@ -272,7 +309,7 @@ def session_outcomes(case, line):
             cur['ids'].append(i)
             sess_of[i] = len(sessions) - 1
         elif t[0] == 'e' and cur is not None:
-            cur['end'] = t[1:]
+            cur['end'] = t[1:].split('@')[0]
             cur = None
     submitted = [s[1] for s in script if s[0] == 'S']
     fmt_failed = {i for i, c in comp.items() if c in ('BadRequest', 'Internal')}
@@ -542,6 +579,15 @@ def judge(ctx, prop, cases, impl, model, clause_prefixes=None):
     return n_mis, n_spec
 
 
+def tie_variants(case):
+    """the two sequential orders of a script with one no-settle step (both are behaviours of the model)"""
+    cfg, script = case
+    k = next(i for i, s in enumerate(script) if s[0] == '~')
+    a = plain(script)
+    b = a[:k] + [a[k + 1], a[k]] + a[k + 2:]
+    return (cfg, a), (cfg, b)
+
+
 def case_json(case):
     cfg, script = case
     return {'cfg': cfg, 'script': [list(s) for s in script]}
@@ -562,12 +608,14 @@ def classify(case, line):
         cl.add('result:' + c[1])
     for t in p['task']:
         if t[0] == 'e':
-            cl.add('end:' + t[1:])
+            cl.add('end:' + t[1:].split('@')[0])
         if t[0] == 'l':
             cl.add('listener:' + t[:2])
         if t[0] == 'x':
             cl.add('write-failed')
-    for s in script:
+    if any(s[0] == '~' for s in script):
+        cl.add('select-tie')
+    for s in plain(script):
         cl.add('step:' + s[0])
         if s[0] == 'S':
             cl.add('style:' + s[4])
